@@ -222,6 +222,8 @@ class Unit:
     env = None
     io_faults = True
     timeout = 900
+    shards = 1                   # independent sub-tasks; the unit constrains its inputs by self.shard
+    shard = 0
 
     def inputs(self, S):
         raise NotImplementedError
@@ -451,6 +453,7 @@ def bounded_random(unit, seed, n):
     skipped = 0
     for k in range(n):
         S = RandS(rng)
+        unit.shard = rng.randrange(unit.shards)
         try:
             inp = unit.inputs(S)
             if not unit.pre(S, inp):
